@@ -456,3 +456,157 @@ package ring
 //@   property C01
 //@   veckernel out=p1 in=p1 idx=j
 //@   lane p1[k] == 0
+
+// ---- primality oracle (assumed): math/big.ProbablyPrime(0) is exact below 2^64 ----
+//@ ghost isprime(x) bool
+
+//@ func IsPrime
+//@   property C19
+//@   trusted math/big.Int.ProbablyPrime(0) is documented to be 100% accurate for inputs below 2^64
+//@   ensures result == isprime(x)
+
+// ---- SubRing methods (ring/subring_ops.go): each inherits the contract of the kernel it must delegate to ----
+
+//@ func SubRing.Add
+//@   property C01
+//@   wraps addvec(p1, p2, p3, s.Modulus)
+
+//@ func SubRing.AddLazy
+//@   property C01
+//@   wraps addlazyvec(p1, p2, p3)
+
+//@ func SubRing.Sub
+//@   property C01
+//@   wraps subvec(p1, p2, p3, s.Modulus)
+
+//@ func SubRing.SubLazy
+//@   property C01
+//@   wraps sublazyvec(p1, p2, p3, s.Modulus)
+
+//@ func SubRing.Neg
+//@   property C01
+//@   wraps negvec(p1, p2, s.Modulus)
+
+//@ func SubRing.Reduce
+//@   property C01
+//@   wraps reducevec(p1, p2, s.Modulus, s.BRedConstant)
+
+//@ func SubRing.ReduceLazy
+//@   property C01
+//@   wraps reducelazyvec(p1, p2, s.Modulus, s.BRedConstant)
+
+//@ func SubRing.MulCoeffsLazy
+//@   property C01
+//@   wraps mulcoeffslazyvec(p1, p2, p3)
+
+//@ func SubRing.MulCoeffsLazyThenAddLazy
+//@   property C01
+//@   wraps mulcoeffslazythenaddlazyvec(p1, p2, p3)
+
+//@ func SubRing.MulCoeffsBarrett
+//@   property C01
+//@   wraps mulcoeffsbarrettvec(p1, p2, p3, s.Modulus, s.BRedConstant)
+
+//@ func SubRing.MulCoeffsBarrettLazy
+//@   property C01
+//@   wraps mulcoeffsbarrettlazyvec(p1, p2, p3, s.Modulus, s.BRedConstant)
+
+//@ func SubRing.MulCoeffsBarrettThenAdd
+//@   property C01
+//@   wraps mulcoeffsthenaddvec(p1, p2, p3, s.Modulus, s.BRedConstant)
+
+//@ func SubRing.MulCoeffsBarrettThenAddLazy
+//@   property C01
+//@   wraps mulcoeffsbarrettthenaddlazyvec(p1, p2, p3, s.Modulus, s.BRedConstant)
+
+//@ func SubRing.MulCoeffsMontgomery
+//@   property C01
+//@   wraps mulcoeffsmontgomeryvec(p1, p2, p3, s.Modulus, s.MRedConstant)
+
+//@ func SubRing.MulCoeffsMontgomeryLazy
+//@   property C01
+//@   wraps mulcoeffsmontgomerylazyvec(p1, p2, p3, s.Modulus, s.MRedConstant)
+
+//@ func SubRing.MulCoeffsMontgomeryThenAdd
+//@   property C01
+//@   wraps mulcoeffsmontgomerythenaddvec(p1, p2, p3, s.Modulus, s.MRedConstant)
+
+//@ func SubRing.MulCoeffsMontgomeryThenAddLazy
+//@   property C01
+//@   wraps mulcoeffsmontgomerythenaddlazyvec(p1, p2, p3, s.Modulus, s.MRedConstant)
+
+//@ func SubRing.MulCoeffsMontgomeryLazyThenAddLazy
+//@   property C01
+//@   wraps mulcoeffsmontgomerylazythenaddlazyvec(p1, p2, p3, s.Modulus, s.MRedConstant)
+
+//@ func SubRing.MulCoeffsMontgomeryThenSub
+//@   property C01
+//@   wraps mulcoeffsmontgomerythensubvec(p1, p2, p3, s.Modulus, s.MRedConstant)
+
+//@ func SubRing.MulCoeffsMontgomeryThenSubLazy
+//@   property C01
+//@   wraps mulcoeffsmontgomerythensublazyvec(p1, p2, p3, s.Modulus, s.MRedConstant)
+
+//@ func SubRing.MulCoeffsMontgomeryLazyThenSubLazy
+//@   property C01
+//@   wraps mulcoeffsmontgomerylazythensublazyvec(p1, p2, p3, s.Modulus, s.MRedConstant)
+
+//@ func SubRing.MulCoeffsMontgomeryLazyThenNeg
+//@   property C01
+//@   wraps mulcoeffsmontgomerylazythenNegvec(p1, p2, p3, s.Modulus, s.MRedConstant)
+
+//@ func SubRing.AddLazyThenMulScalarMontgomery
+//@   property C01
+//@   wraps addlazythenmulscalarmontgomeryvec(p1, p2, scalarMont, p3, s.Modulus, s.MRedConstant)
+
+//@ func SubRing.AddScalarLazyThenMulScalarMontgomery
+//@   property C01
+//@   wraps addscalarlazythenmulscalarmontgomeryvec(p1, scalar0, scalarMont1, p2, s.Modulus, s.MRedConstant)
+
+//@ func SubRing.AddScalar
+//@   property C01
+//@   wraps addscalarvec(p1, scalar, p2, s.Modulus)
+
+//@ func SubRing.AddScalarLazy
+//@   property C01
+//@   wraps addscalarlazyvec(p1, scalar, p2)
+
+//@ func SubRing.AddScalarLazyThenNegTwoModulusLazy
+//@   property C01
+//@   wraps addscalarlazythenNegTwoModuluslazyvec(p1, scalar, p2, s.Modulus)
+
+//@ func SubRing.SubScalar
+//@   property C01
+//@   wraps subscalarvec(p1, scalar, p2, s.Modulus)
+
+//@ func SubRing.MulScalarMontgomery
+//@   property C01
+//@   wraps mulscalarmontgomeryvec(p1, scalarMont, p2, s.Modulus, s.MRedConstant)
+
+//@ func SubRing.MulScalarMontgomeryLazy
+//@   property C01
+//@   wraps mulscalarmontgomerylazyvec(p1, scalarMont, p2, s.Modulus, s.MRedConstant)
+
+//@ func SubRing.MulScalarMontgomeryThenAdd
+//@   property C01
+//@   wraps mulscalarmontgomerythenaddvec(p1, scalarMont, p2, s.Modulus, s.MRedConstant)
+
+//@ func SubRing.MulScalarMontgomeryThenAddScalar
+//@   property C01
+//@   wraps mulscalarmontgomerythenaddscalarvec(p1, scalar0, scalarMont1, p2, s.Modulus, s.MRedConstant)
+
+//@ func SubRing.SubThenMulScalarMontgomeryTwoModulus
+//@   property C01
+//@   wraps subthenmulscalarmontgomeryTwoModulusvec(p1, p2, scalarMont, p3, s.Modulus, s.MRedConstant)
+
+//@ func SubRing.MForm
+//@   property C01
+//@   wraps mformvec(p1, p2, s.Modulus, s.BRedConstant)
+
+//@ func SubRing.MFormLazy
+//@   property C01
+//@   wraps mformlazyvec(p1, p2, s.Modulus, s.BRedConstant)
+
+//@ func SubRing.IMForm
+//@   property C01
+//@   wraps imformvec(p1, p2, s.Modulus, s.MRedConstant)
